@@ -18,7 +18,7 @@ RULE = (
     "Non-trivial = font with >= 2 copies under a non-identity isometry; distinct = (prototype, isometries, config)."
 )
 ASSUMPTIONS = ["picosvg normalisation is third-party; its two audited failure mechanisms are keyed in known_findings.jsonl", "one prototype per font so the congruence classes are known by construction"]
-N = {"quick": 320, "thorough": 6000}
+N = {"quick": 960, "thorough": 9600}
 FORMATS = ("glyf_colr_1", "glyf_colr_1", "glyf_colr_0", "picosvg")
 
 
